@@ -27,7 +27,8 @@ def model_check(ctx):
         ctx.mc_negative("Materials", "MC_Materials_neg3.cfg", workers=2)  # 3-tuple broadcast from its first entry
     ctx.assumptions += [
         "dictionary cases use floats that are multiples of 1/8 (exact as scaled integers; math.isclose then coincides with equality)",
-        "3-tuples are given as Python floats (the code rejects 3-tuples of ints with a ValueError: outside the claim, see notes)",
+        "entries are written as Python float / int, numpy float64 / float32 / int64 and mixed int-float wherever the code accepts them (all of them for scalars, 9-tuples, nested tuples; Python float / np.float64 for 3-tuples)",
+        "3-tuples of int / np.float32 / np.int64 / mixed entries are rejected by the code with a ValueError: checked as 'raises loudly or normalises correctly'; lists and numpy arrays are silently broadcast as scalars (recorded as drift, see notes)",
         "complex-permittivity round trip is trace-monitored: deviations computed in float64 by the harness, bound 1e-9 relative checked by TLC",
     ]
 
@@ -113,6 +114,46 @@ def gen_cases(ctx):
         for m in mats:
             m.pop("m0")
         yield {"id": f"rnd{n}", "kind": "dict", "mats": mats}
+    # G. the same universe written in every ACCEPTED numeric representation (exhaustive), one property at a time
+    n = 0
+    for e in eps:
+        for rep in ACCEPTED[e["fmt"]]:
+            if rep == "float" or not rep_ok(e, rep):
+                continue
+            src = {"eps": dict(e, num=rep), "mu": mu[n % 3], "se": se[n % 2], "sm": sm[0]}
+            if n % 4 == 1:   # ... and the other properties too
+                src["mu"] = dict(src["mu"], num="np_f64" if src["mu"]["fmt"] == "diag3" else rep)
+                src["se"] = dict(src["se"], num=rep)
+            yield {"id": f"rep{n}", "kind": "dict", "mats": [{"name": "m1", "src": src, "disp": 0}]}
+            n += 1
+    # ... and random dictionaries whose members mix representations (whole-number tensors half of the time)
+    for n in range(120 if ctx.quick else 3000):
+        mats = []
+        for j in range(rng.randint(1, 4)):
+            src = {}
+            for prop in PROPS:
+                inp = _rand_input(rng, prop in ("eps", "mu"))
+                if rng.random() < 0.5:
+                    inp = rng.choice(inputs_of(tuple(x * SCALE for x in tensor_of(inp))))
+                reps = [r for r in ACCEPTED[inp["fmt"]] if rep_ok(inp, r)]
+                src[prop] = dict(inp, num=rng.choice(reps))
+            mats.append({"name": f"r{j}", "src": src, "disp": rng.choice((0, 0, j + 1))})
+        yield {"id": f"reprnd{n}", "kind": "dict", "mats": mats}
+    # H. forms the code does NOT accept: they must be rejected loudly (or, should they ever be accepted, be normalised
+    #    correctly).  Observations, never violations unless a numeric 9-tuple is stored that is not the tensor entered.
+    n = 0
+    for e in eps:
+        if e["fmt"] != "diag3":
+            continue
+        for rep in ("int", "np_f32", "np_i64", "mixed"):
+            yield {"id": f"form{n}", "kind": "form", "inp": dict(e, num=rep), "container": "tuple"}
+            n += 1
+    noniso = [x for x in eps if tensor_of(x)[0] != tensor_of(x)[8]]
+    for fmt in ("diag3", "flat9", "nested"):
+        e = next(x for x in noniso if x["fmt"] == fmt)
+        for container in ("list", "ndarray"):
+            yield {"id": f"form{n}", "kind": "form", "inp": dict(e, num="float"), "container": container}
+            n += 1
     # D. complex permittivity round trip (trace-monitor)
     for n in range(150 if ctx.quick else 2000):
         ncomp = rng.choice((1, 3, 9, 9))
@@ -144,14 +185,56 @@ def inputs_first(inp):
 
 
 # ------------------------------------------------------------------ running the real code
-def _to_arg(inp):
-    S = float(SCALE)
+# numeric representations of the entries of an input (the claim does not depend on them; like the four formats they
+# are just ways of writing the same tensor down).  Whole-number representations need whole values (v % SCALE == 0).
+REPS = ("float", "int", "np_f64", "np_f32", "np_i64", "mixed")
+# what the code accepts today: any representation for a scalar, a 9-tuple and a nested tuple; a 3-tuple only of Python
+# floats (np.float64 is a subclass of float).  Everything else must at least be rejected loudly.
+ACCEPTED = {"scalar": ("float", "int", "np_f64", "np_f32", "np_i64"), "diag3": ("float", "np_f64"),
+            "flat9": REPS, "nested": REPS}
+
+
+def _num(x, rep):
+    import numpy as np
+
+    f = x / float(SCALE)
+    if rep == "float":
+        return f
+    if rep == "int":
+        return int(x // SCALE)
+    if rep == "np_f64":
+        return np.float64(f)
+    if rep == "np_f32":
+        return np.float32(f)
+    if rep == "np_i64":
+        return np.int64(x // SCALE)
+    if rep == "mixed":
+        return int(x // SCALE) if x % SCALE == 0 else f
+    raise ValueError(rep)
+
+
+def rep_ok(inp, rep):
+    """can the input be written in this representation at all (whole numbers for the integer ones)?"""
+    flat = [x for row in inp["v"] for x in row] if inp["fmt"] == "nested" else inp["v"]
+    return rep not in ("int", "np_i64") or all(x % SCALE == 0 for x in flat)
+
+
+def _to_arg(inp, container="tuple"):
+    import numpy as np
+
+    rep = inp.get("num", "float")
     v = inp["v"]
     if inp["fmt"] == "scalar":
-        return v[0] / S
+        return _num(v[0], rep)
     if inp["fmt"] == "nested":
-        return tuple(tuple(x / S for x in row) for row in v)
-    return tuple(x / S for x in v)
+        rows = [[_num(x, rep) for x in row] for row in v]
+        if container == "ndarray":
+            return np.asarray(rows, dtype=np.float64)
+        return [list(r) for r in rows] if container == "list" else tuple(tuple(r) for r in rows)
+    vals = [_num(x, rep) for x in v]
+    if container == "ndarray":
+        return np.asarray(vals, dtype=np.float64)
+    return list(vals) if container == "list" else tuple(vals)
 
 
 def _scaled(t):
@@ -302,13 +385,38 @@ def _observe_complex(case):
     return {"id": case["id"], "kind": "complex", "tol": 1000, "built": built, "via": case["via"], "comps": comps}
 
 
+def _observe_form(case):
+    import numbers
+    import warnings
+
+    import fdtdx
+
+    inp = case["inp"]
+    raised, numeric, t, err = False, False, [0] * 9, ""
+    try:
+        with warnings.catch_warnings():
+            warnings.simplefilter("ignore")
+            stored = fdtdx.Material(permittivity=_to_arg(inp, case["container"])).permittivity
+        numeric = len(stored) == 9 and all(isinstance(x, numbers.Number) for x in stored)   # numpy scalars are Numbers, arrays/lists are not
+        if numeric:
+            t, exact = _scaled(stored)
+            numeric = bool(exact)
+            t = t if exact else [0] * 9
+    except Exception as ex:
+        raised, err = True, f"{type(ex).__name__}: {ex}"[:160]
+    return {"id": case["id"], "kind": "form", "scale": SCALE, "inp": {"fmt": inp["fmt"], "v": inp["v"]}, "rep": inp.get("num", "float"),
+            "container": case["container"], "raised": raised, "error": err, "numeric": numeric, "t": t}
+
+
 def observe(case):
+    if case["kind"] == "form":
+        return _observe_form(case)
     return _observe_dict(case) if case["kind"] == "dict" else _observe_complex(case)
 
 
 def classify(record, verdict):
     if verdict.startswith("malformed:"):
         return "malformed"
-    if verdict.startswith(("documented order:", "other predicates:")):
+    if verdict.startswith(("documented order:", "other predicates:", "forms:")):
         return "drift"
     return "violation"
